@@ -91,20 +91,6 @@ where
 
 def jFields (j : Json) : List Fld := (jArr j).map jTy.jFld
 
-/-- declared signature: members may carry "py" (Python name) next to "n" (sub_name) -/
-partial def jDTy (j : Json) : Flat.DTy :=
-  match jPrim j with
-  | some p => .prim p
-  | none => .obj (jNat (fld j "cid")) ((jArr (fld j "fields")).map jDFld)
-where
-  jDFld (f : Json) : DFld :=
-    let occ : Flat.Occ := ⟨jBool (fld f "many"), jNat (fld f "min"), (match fld f "max" with | .null => none | x => some (jNat x)),
-      (match fld f "nillable" with | .bool b => b | _ => true)⟩
-    match fld f "py" with
-    | .null => (jText (fld f "n"), none, occ, jDTy (fld f "t"))
-    | py => (jText py, some (jText (fld f "n")), occ, jDTy (fld f "t"))
-
-def jDFields (j : Json) : List DFld := (jArr j).map jDTy.jDFld
 
 def jCfg (j : Json) : Cfg := ⟨jBool (fld j "strict"), jBool (fld j "soft"), jText (fld j "delim")⟩
 
@@ -173,6 +159,23 @@ def jLeaf (j : Json) : Leaf :=
     | .ok t => .enum (jText t)
     | _ => .none
 
+/-- declared signature: members may carry "py" (Python name) next to "n" (sub_name) -/
+partial def jDTy (j : Json) : Flat.DTy :=
+  match jPrim j with
+  | some p => .prim p
+  | none => .obj (jNat (fld j "cid")) ((jArr (fld j "fields")).map jDFld)
+where
+  jDFld (f : Json) : DFld :=
+    let occ : Flat.Occ := ⟨jBool (fld f "many"), jNat (fld f "min"), (match fld f "max" with | .null => none | x => some (jNat x)),
+      (match fld f "nillable" with | .bool b => b | _ => true)⟩
+    let dflt : Option Leaf := match fld f "dflt" with | .null => none | x => some (jLeaf x)
+    let ro := match fld f "ro" with | .bool b => b | _ => false
+    match fld f "py" with
+    | .null => (jText (fld f "n"), { dflt := dflt, readOnly := ro }, occ, jDTy (fld f "t"))
+    | py => (jText py, { sub := some (jText (fld f "n")), dflt := dflt, readOnly := ro }, occ, jDTy (fld f "t"))
+
+def jDFields (j : Json) : List DFld := (jArr j).map jDTy.jDFld
+
 /-- a native object in the encoding of `nodeJson`, read back under the guidance of the type -/
 partial def jNode (many : Bool) (t : Flat.Ty) (j : Json) : Node :=
   match j with
@@ -240,6 +243,17 @@ def step (j : Json) : Json :=
     match httpGet F (jCfg (fld j "cfg")) (jFields (fld j "fields")) (jText (fld j "qs")) with
     | .wsdl => Json.mkObj [("wsdl", Json.bool true)]
     | .call r => outJson nodeJson r
+  | "http.get.decl" =>
+    let dfs := jDFields (fld j "fields")
+    match httpGet F (jCfg (fld j "cfg")) (keyedFields F none dfs) (jText (fld j "qs")) with
+    | .wsdl => Json.mkObj [("wsdl", Json.bool true)]
+    | .call r => outJson nodeJson (obind r fun n => .ok (finishNode (.obj 0 dfs) n))
+  | "hdr.in" =>
+    let env := (jArr (fld j "env")).map fun kv =>
+      match kv with
+      | .arr a => (jText (a[0]?.getD .null), jText (a[1]?.getD .null))
+      | _ => ([], [])
+    outJson nodeJson (decode F (jCfg (fld j "cfg")) (jFields (fld j "fields")) (httpHeaders env))
   | "flat.encode" =>
     let fs := jFields (fld j "fields")
     let inst := jNode false (.obj 0 fs) (fld j "inst")
